@@ -78,7 +78,17 @@ class Run:
         return counts
 
     def finish(self, explanation, level="other", extra_cov=None, write=True):
-        counts = self.check_floors()
+        try:
+            counts = self.check_floors()
+        except AnalysisError as e:
+            # a rule that found fewer instances than confirmed is an analysis problem - unless the run also found violations: those are reported first
+            # (a rewritten construct typically both violates a rule and makes a sibling rule lose its anchor)
+            if not [o for o in self.violations() if o.key not in load_known(self.prop)]:
+                raise
+            self.note("instance floor not reached: %s" % e)
+            counts = {}
+            for o in self.obs:
+                counts[o.rule] = counts.get(o.rule, 0) + 1
         known = load_known(self.prop)
         viol = self.violations()
         new = []
